@@ -58,6 +58,8 @@ def run(res):
     for r in r_bad[:2]:
         res.violations.append({"property": "C01", "what": "model reader and real reader disagree", "case": r["case"],
                                "impl": r["rdec_impl"][:2000], "model": r["rdec_model"][:2000], "tags": ["reader-diff"]})
+    from props.leaf_corr import run_leaf_corr
+    run_leaf_corr(res, rng, thorough)
     # extraction cross-check: the same decode evaluated inside Coq (vm_compute in the kernel's VM)
     small = [r for r in out if r["comp"] is not None and len(r["comp"]["hex"]) <= 300][:24]
     shard = [(r["case"]["dt"], r["comp"]["hex"]) for r in small]
